@@ -52,9 +52,10 @@ FAULT_PROBES = {"first_command_fails": "first_command_fails", "middle_command_fa
 INTERP_VARIANTS = [{"flags": ["-O"], "runs": {"quick": 64, "thorough": 800}, "what": "python -O (assert statements stripped from the code under test)"}]
 PROBES = ["all_commands_succeed", "first_command_fails", "middle_command_fails", "last_command_fails", "death_by_signal", "return_file_missing",
           "all_return_files_missing", "return_file_is_input_file", "binary_input_file", "unnamed_command", "no_return_files_requested",
-          "runner_killed_mid_command", "driver_second_instance_used_after_first", "driver_job_level_override", "driver_subclass_instance", "driver_created_used_dropped", "driver_class_level_envars", "two_jobs_same_jid_overlap", "driver_found_through_PATH", "driver_vectorised_job", "same_program_names_on_the_runners_PATH"]
+          "runner_killed_mid_command", "driver_second_instance_used_after_first", "driver_job_level_override", "driver_subclass_instance", "driver_created_used_dropped", "driver_class_level_envars", "two_jobs_same_jid_overlap", "driver_found_through_PATH", "driver_vectorised_job", "same_program_names_on_the_runners_PATH", "command_cannot_be_started", "driver_job_looked_at_through_the_class",
+          "two_runners_create_the_directories_together"]
 
-FAIL_KINDS = [("rc", 1), ("rc", 2), ("rc", 255), ("sig", -11)]
+FAIL_KINDS = [("rc", 1), ("rc", 2), ("rc", 255), ("sig", -11), ("nostart", None)]
 
 
 def budget(tier):
@@ -141,9 +142,11 @@ def _exec_one(plan, fail, missing, kill_at, root, res, sigctx, twin=False):
     outdir = os.path.join(root, "out")
     work = os.path.join(root, "work")
     os.makedirs(work)
-    os.makedirs(os.path.join(scratch, plan["jid"] + "__foreign"))   # another job's private directory
-    with open(os.path.join(scratch, plan["jid"] + "__foreign", "keep.txt"), "w") as f:
-        f.write("foreign")
+    fresh_dirs = twin == "fs"     # neither the scratch nor the output directory exists yet: the runners create them
+    if not fresh_dirs:
+        os.makedirs(os.path.join(scratch, plan["jid"] + "__foreign"))   # another job's private directory
+        with open(os.path.join(scratch, plan["jid"] + "__foreign", "keep.txt"), "w") as f:
+            f.write("foreign")
     cmds = [(f"{c['prog']} {c['args']}".strip(), c["name"]) for c in plan["commands"]]
     rf = None if plan["return_files_none"] else tuple(x["name"] for x in plan["returns"])
     ji = JobInput(plan["jid"], commands=cmds, files={k: _file_value(v) for k, v in plan["files"].items()} or None,
@@ -164,6 +167,9 @@ def _exec_one(plan, fail, missing, kill_at, root, res, sigctx, twin=False):
             if x["by"] == "input" and x["name"] in missing and i == 0:
                 act.setdefault("delete", []).append(x["name"])
         if fail is not None and i == fail[0]:
+            if fail[1] == "nostart":
+                # the program cannot be started at all: subprocess.run raises instead of returning
+                return {"raise": FileNotFoundError(2, "No such file or directory", argv[0]), "files": {}}
             act["rc"] = fail[2]
         return act
 
@@ -177,8 +183,11 @@ def _exec_one(plan, fail, missing, kill_at, root, res, sigctx, twin=False):
         ji.dump(inp2)
 
         def hook(argv, rec):
-            if twin_info or os.path.basename(argv[0]) != "prog0":
+            if twin_info or fresh_dirs or os.path.basename(argv[0]) != "prog0":
                 return
+            run_twin()
+
+        def run_twin():
             twin_info["started"] = True
             fe2 = FakeExec(behaviour)
             sp2 = SimSpawn()
@@ -195,6 +204,17 @@ def _exec_one(plan, fail, missing, kill_at, root, res, sigctx, twin=False):
             twin_info["stderr"] = p2.stderr[-300:]
 
         fe.hook = hook
+    runner_path = None
+    if fresh_dirs:
+        # ... and the second runner is scheduled exactly when the first one is about to create a directory: between
+        # whatever look it had at the directory and its mkdir
+        from ..stubs.jobsim import hook_path_class
+
+        def fs_hook(path_, what):
+            if what == "mkdir" and not twin_info and os.fspath(path_) in (scratch, outdir):
+                run_twin()
+
+        runner_path = hook_path_class(fs_hook)
     old_path = os.environ.get("PATH", "")
     if plan.get("runner_path_shadow"):
         import stat as _stat
@@ -210,7 +230,7 @@ def _exec_one(plan, fail, missing, kill_at, root, res, sigctx, twin=False):
         res.stats["probe:same_program_names_on_the_runners_PATH"] += 1
     try:
         ambient = dict(os.environ)
-        with pipeline_seams(fe, sp):
+        with pipeline_seams(fe, sp, runner_path=runner_path):
             cwd0 = os.getcwd()
             proc = sp(["_molli_run", inp, "-o", outdir, "-s", scratch], cwd=work, capture_output=True, encoding="utf8")
             if os.getcwd() != cwd0:
@@ -218,14 +238,24 @@ def _exec_one(plan, fail, missing, kill_at, root, res, sigctx, twin=False):
     finally:
         os.environ["PATH"] = old_path
     res.evals += 1
-    if not fe.log and kill_at is None:
-        # nothing went through the external-program seam
-        raise HarnessError("SEAM-LOST molli.pipeline.runner.run: no command reached FakeExec")
-
     def viol(clause, detail):
         res.violate(clause, f"C17|{clause}|{sigctx}", f"{detail} [jid={plan['jid']} commands={cmds} fail={fail} missing={sorted(missing)} kill_at={kill_at} "
                                                       f"exit={proc.returncode} stderr={proc.stderr[-300:]!r}]")
 
+    if not fe.log and kill_at is None:
+        if proc.returncode == 0 or "subprocess.py" in (proc.stderr or ""):
+            # nothing went through the external-program seam (the real subprocess machinery shows in the traceback)
+            raise HarnessError("SEAM-LOST molli.pipeline.runner.run: no command reached FakeExec")
+        # the runner itself gave up before its first command
+        return viol("exit-status", f"the runner ended with status {proc.returncode} before it ran any command")
+
+    if fresh_dirs:
+        res.stats["probe:two_runners_create_the_directories_together"] += 1
+        if not twin_info:
+            raise HarnessError("SEAM-LOST molli.pipeline.runner.Path: the runner created its directories without going through Path.mkdir")
+        if proc.returncode != 0 or twin_info.get("rc") != 0:
+            return viol("exit-status", f"two runners that had to create the scratch / output directories at the same time: exit {proc.returncode} and "
+                                       f"{twin_info.get('rc')} although every command succeeds (stderr {proc.stderr[-200:]!r} / {twin_info.get('stderr')!r})")
     if twin:
         res.stats["probe:two_jobs_same_jid_overlap"] += 1
         mine = sorted({r_["cwd"] for r_ in fe.log})
@@ -273,14 +303,29 @@ def _exec_one(plan, fail, missing, kill_at, root, res, sigctx, twin=False):
                 diff.update({k: (r_["env"][k], want_env[k]) for k in want_env if r_["env"] and k in r_["env"] and r_["env"][k] != want_env[k]})
                 return viol("environment", f"command {i} saw an environment differing from ambient+envars in {diff}")
     # ---- scratch residue (also when the runner was killed the statement's 'no residue' is about normal exits only)
-    left = sorted(os.listdir(scratch))
-    if kill_at is None and left != [plan["jid"] + "__foreign"]:
+    left = sorted(os.listdir(scratch)) if os.path.isdir(scratch) else []
+    if kill_at is None and left != ([] if fresh_dirs else [plan["jid"] + "__foreign"]):
         return viol("scratch-residue", f"scratch directory holds {left} afterwards")
-    if not os.path.isfile(os.path.join(scratch, plan["jid"] + "__foreign", "keep.txt")):
+    if not fresh_dirs and not os.path.isfile(os.path.join(scratch, plan["jid"] + "__foreign", "keep.txt")):
         return viol("scratch-residue", "another job's directory in the scratch directory was damaged")
     if kill_at is not None:
         if proc.returncode == 0:
             return viol("exit-status", "runner killed mid-command but exit status 0")
+        return
+    if fail is not None and fail[1] == "nostart":
+        # A command that cannot even be started is a failing command.  How much of a report a runner still manages to
+        # write is its own business (the unchanged one dies with a traceback), but it must not claim success anywhere.
+        if proc.returncode == 0:
+            return viol("exit-status", "a command could not be started but the exit status is 0")
+        outf_ = os.path.join(outdir, "thejob.out")
+        if os.path.isfile(outf_):
+            try:
+                jo_ = JobOutput.load(outf_)
+            except Exception:  # noqa: BLE001
+                return
+            if jo_.exitcode == 0:
+                return viol("exit-status", f"a command could not be started, exit status {proc.returncode}, but the JobOutput records exit code 0 "
+                                           f"(files {sorted(jo_.files or {})})")
         return
     # ---- the report
     outf = os.path.join(outdir, "thejob.out")
@@ -369,6 +414,12 @@ def _drivers(plan, res):
         for pos, di in enumerate(seq):
             d, s = inst[di], spec["instances"][di]
             flag = f"F{pos}"
+            if pos == 1 and len(seq) % 2:
+                # somebody looks at the job through the CLASS in between (help(), hasattr, inspect): nobody's settings change
+                import inspect
+
+                _ = (Drv.calc.__doc__, hasattr(Sub, "calc"), Drv.calc_vec.name, [n_ for n_, _v in inspect.getmembers(DefDrv) if n_ == "calc"])
+                res.stats["probe:driver_job_looked_at_through_the_class"] += 1
             ji = d.calc.prepare(f"item{di}", flag=flag)
             res.evals += 1
             exe = jl.get("executable") or s["executable"]
@@ -510,12 +561,13 @@ def run_plan(plan, trace=False):
         for i in range(n):
             cases.append((None, frozenset(), i))
         cases.append((None, frozenset(), "twin"))
+        cases.append((None, frozenset(), "twin_fs"))
         if only is not None:
             cases = [(tuple(only["fail"]) if only["fail"] else None, frozenset(only["missing"]), only["kill_at"])]
         for (fail, miss, kill_at) in cases:
             if fail is None and kill_at is None:
                 res.stats["probe:all_commands_succeed"] += 1
-            elif kill_at == "twin":
+            elif kill_at in ("twin", "twin_fs"):
                 pass
             elif kill_at is not None:
                 res.stats["probe:runner_killed_mid_command"] += 1
@@ -524,17 +576,21 @@ def run_plan(plan, trace=False):
                 res.stats[f"probe:{pos}_command_fails"] += 1
                 if fail[1] == "sig":
                     res.stats["probe:death_by_signal"] += 1
+                if fail[1] == "nostart":
+                    res.stats["probe:command_cannot_be_started"] += 1
             if miss:
                 res.stats["probe:return_file_missing"] += 1
                 if len(miss) == len(rets):
                     res.stats["probe:all_return_files_missing"] += 1
-            fcls = "none" if fail is None else (("first" if fail[0] == 0 else "later") + "/" + ("signal" if fail[1] == "sig" else "rc"))
+            fcls = "none" if fail is None else (("first" if fail[0] == 0 else "later") + "/" + ("signal" if fail[1] == "sig" else "nostart" if fail[1] == "nostart" else "rc"))
             if kill_at is not None:
-                fcls = "runner-killed" if kill_at != "twin" else "twin"
+                fcls = "runner-killed" if kill_at not in ("twin", "twin_fs") else kill_at
             sigctx = f"fail={fcls}|missing={'none' if not miss else ('all' if len(miss) == len(rets) else 'some')}|returns={'none' if not rets else 'some'}"
             nv = len(res.violations)
             if kill_at == "twin":
                 _exec_one(plan, None, miss, None, root, res, "overlap=same-jid-twin", twin=True)
+            elif kill_at == "twin_fs":
+                _exec_one(plan, None, miss, None, root, res, "overlap=directory-creation", twin="fs")
             else:
                 _exec_one(plan, fail, miss, kill_at, root, res, sigctx)
             for v in res.violations[nv:]:
